@@ -373,6 +373,8 @@ def index_not_pruned(ctx):
             ctx.violated("C13.5", ins.fn, "`%s` deletes candidates from the search index" % norm(ins.node)[:70], ins.node)
         elif ins.how == "store" and ins.value is not None:
             why = filtered_rebuild(ctx, ins.value, ins.fn)
+            if not why and isinstance(ins.value, (ast.List, ast.Tuple)) and not any(isinstance(x, ast.Starred) for x in ins.value.elts):
+                why = "a list display of %d element(s) (`%s`): whatever else was indexed under that name is gone for the entries and metafiles still to be matched" % (len(ins.value.elts), norm(ins.value)[:40])
             if why:
                 ctx.violated("C13.5", ins.fn, "the candidate list is replaced by %s: candidates are dropped before any of their bytes were compared - with a criterion kept per file *name*, "
                              "the intact copies of all but one same-named file are lost" % why, ins.node)
@@ -482,8 +484,72 @@ def candidates_independent(ctx, flow, reach):
     ctx.floor("candidate loops checked for independence", 2, n)
 
 
+def piece_map_covers_every_file(ctx):
+    """C13.9: the v1 piece map gives every entry of the file list at least one node.  The map walks the file list with a
+    counter; a file whose counter position is passed without a node having been attached for it belongs to no piece, is
+    never searched for and never placed.  Decided for a counter-driven map (every `counter += 1` lies between the point where
+    the file's record is taken and the next such point, on a stretch that attaches a node built from that record); any other
+    way of building the map is reported as undecided - the arithmetic of the map itself is not evaluated."""
+    fn = ctx.prog.functions.get("torrentfile.rebuild:Metadata._map_pieces")
+    if fn is None:
+        ctx.undecided("C13.9", None, "anchor vanished: Metadata._map_pieces")
+        return
+    g = C.cfg_of(fn)
+    # the counter: a local used as index into self.files
+    counters = {x.slice.id for x in own_nodes(fn.node) if isinstance(x, ast.Subscript) and isinstance(x.slice, ast.Name) and isinstance(x.value, ast.Attribute) and x.value.attr == "files"}
+    incs = [n for n in own_nodes(fn.node) if isinstance(n, ast.AugAssign) and isinstance(n.target, ast.Name) and n.target.id in counters]
+    if len(counters) != 1 or not incs:
+        ctx.undecided("C13.9", fn, "the v1 piece map is not driven by a counter into the file list: that every file of the metafile is attached to a piece is not decided", fn.node)
+        return
+    cnt = next(iter(counters))
+    # the counter only ever starts at 0 and moves by increments: a jump (`index = bisect(...)`, a loop variable over a
+    # computed range) can pass files over, and whether it does depends on arithmetic this rule does not evaluate
+    for n in own_nodes(fn.node):
+        tg = []
+        if isinstance(n, ast.Assign):
+            tg = [(t, n.value) for t in n.targets for t in ([t] if isinstance(t, ast.Name) else list(ast.walk(t))) if isinstance(t, ast.Name) and t.id == cnt]
+        elif isinstance(n, (ast.For, ast.comprehension)):
+            tg = [(t, n.iter) for t in ast.walk(n.target) if isinstance(t, ast.Name) and t.id == cnt]
+        for t, v in tg:
+            if not (isinstance(v, ast.Constant) and v.value == 0):
+                ctx.undecided("C13.9", fn, "the position in the file list is set by `%s`, not only advanced one file at a time: that no file is jumped over is not decided" % norm(n)[:70], n)
+                return
+    # records: locals bound to self.files[counter]
+    recs = [n for n in own_nodes(fn.node) if isinstance(n, ast.Assign) and len(n.targets) == 1 and isinstance(n.targets[0], ast.Name) and isinstance(n.value, ast.Subscript)
+            and isinstance(n.value.value, ast.Attribute) and n.value.value.attr == "files" and isinstance(n.value.slice, ast.Name) and n.value.slice.id == cnt]
+    rec_names = {n.targets[0].id for n in recs}
+    rec_nodes = {C.stmt_node(ctx, fn, n) for n in recs}
+
+    def node_ctor(e, depth=0):
+        """PathNode(..., **record) (directly or through a local)"""
+        if isinstance(e, ast.Call) and any(k[0] == "class" and k[1].name == "PathNode" for k in ctx.res.kinds(e.func, fn)):
+            return any(kw.arg is None and isinstance(kw.value, ast.Name) and kw.value.id in rec_names for kw in e.keywords)
+        if isinstance(e, ast.Name) and depth < 2:
+            vals = [p_ for w_, p_ in ctx.res.bindings(fn).get(e.id, []) if w_ == "value"]
+            return bool(vals) and all(node_ctor(v, depth + 1) for v in vals)
+        return False
+    attaches = {C.stmt_node(ctx, fn, n) for n in own_nodes(fn.node) if isinstance(n, ast.Call) and isinstance(n.func, ast.Attribute) and n.func.attr == "append" and n.args and node_ctor(n.args[0])}
+    attaches.discard(None)
+    if not attaches or not recs:
+        ctx.undecided("C13.9", fn, "no statement that attaches a node built from the current file's record was recognised in the piece map", fn.node)
+        return
+    for inc in incs:
+        if not (isinstance(inc.op, ast.Add) and isinstance(inc.value, ast.Constant) and inc.value.value == 1):
+            ctx.violated("C13.9", fn, "the file counter moves by `%s`: files are skipped (or visited twice) without being attached to a piece" % norm(inc), inc)
+            continue
+        inn = C.stmt_node(ctx, fn, inc)
+        # after the counter moved on, a node for the file it pointed at is attached before the next record is taken / the map ends
+        after = g.must_pass(inn, g.exit, attaches | rec_nodes) and all(g.must_pass(inn, r, attaches) for r in rec_nodes if r in g.reachable(inn) and r is not inn) \
+            and not (g.exit in g.reachable(inn, avoiding=attaches | rec_nodes))
+        # or it was attached since the record was taken
+        before = all(g.must_pass(r, inn, attaches) for r in rec_nodes if inn in g.reachable(r))
+        ctx.decide("C13.9", fn, after or before, "when the file counter moves on, a node built from that file's record %s" % ("is attached before the next record is taken" if after else "has been attached"),
+                   "the file counter moves on (`%s`) on a path that attaches no node for the file it pointed at: that file belongs to no piece, so rebuild never looks for it and never places it" % norm(inc), inc)
+    ctx.floor("advances of the file counter in the v1 piece map", 1, len(incs))
+
+
 def run(ctx):
-    ctx.trust("the piece-to-file mapping (_map_pieces) and hash equality are NOT decided by this check")
+    ctx.trust("the arithmetic of the piece-to-file mapping (_map_pieces: offsets, lengths) and hash equality are NOT decided by this check; C13.9 decides only that no file is passed over without a node")
     entries = C.funcs(ctx, ENTRY_FUNCS) + C.class_methods(ctx, ENTRY_CLASSES)
     stops = C.funcs(ctx, STOPS)
     flow = Flow(ctx.prog, ctx.res, stop_funcs=stops)
@@ -498,10 +564,17 @@ def run(ctx):
     index_not_pruned(ctx)
     every_piece_verified(ctx)
     padding_entries_recognised(ctx)
+    piece_map_covers_every_file(ctx)
     candidates_independent(ctx, flow, full)
 
 
 MUTANTS = [
+    {"name": "piece-map-skips-empty-files", "file": "torrentfile/rebuild.py", "expect": "violated", "rule": "C13.9", "canary": True, "quick": True,
+     "what": "the piece map steps over empty files without giving them a node",
+     "edits": [("                current = self.files[file_index]\n                size = current[\"length\"]\n                if size <= target:",
+                "                current = self.files[file_index]\n                size = current[\"length\"]\n                if not size:\n                    file_index += 1\n                    continue\n                if size <= target:")]},
+    {"name": "piece-map-counter-by-two", "file": "torrentfile/rebuild.py", "expect": "violated", "rule": "C13.9", "canary": True,
+     "what": "trailing empty files: counter advances by two", "edits": [("            self.piece_nodes[-1].append(PathNode(start=0, stop=-1, **current))\n            file_index += 1", "            self.piece_nodes[-1].append(PathNode(start=0, stop=-1, **current))\n            file_index += 2")]},
     {"name": "G27-regress-padding-not-recognised", "file": "torrentfile/rebuild.py", "expect": "violated", "rule": "C13.8", "canary": True, "quick": True,
      "what": "defect G27 (repaired): the v1 reader of rebuild ignores attr='p'", "edits": [('                padding = "p" in f.get("attr", "")', "                padding = False")]},
     {"name": "index-prefiltered-by-name-size", "file": "torrentfile/rebuild.py", "expect": "violated", "rule": "C13.5", "canary": True,
